@@ -210,10 +210,22 @@ func genC04(g *Gen, in Inst, tier string) []HarnessSrc {
 		out = append(out, kf)
 	}
 	// direct statement on two independent values (small types only; bigger ones are covered by L1+L2)
-	direct := h("VX_C04_direct_"+in.ID, "direct", fmt.Sprintf(
-		"\tx := %s\n\ty := %s\n\tvx.Assume(%s(x, y))\n\tvx.Assume(%s(x, y))\n\tvx.Assert(%s(x) == %s(y), \"Equal implies same hash\")\n",
-		nd(T, "x"), nd(T, "y"), eq, ref, hash, hash))
-	out = append(out, direct)
+	if in.Tags["float"] {
+		// outside the F3 region (+0 vs -0): floats bit-identical
+		bits := g.RefEqBits(T)
+		out = append(out, h("VX_C04_direct_"+in.ID, "direct", fmt.Sprintf(
+			"\tx := %s\n\ty := %s\n\tvx.Assume(%s(x, y))\n\tvx.Assume(%s(x, y))\n\tvx.Assert(%s(x) == %s(y), \"Equal implies same hash (floats bit-identical)\")\n",
+			nd(T, "x"), nd(T, "y"), eq, bits, hash, hash)))
+		kf := h("VX_C04_direct_"+in.ID+"__KF_F3", "direct", fmt.Sprintf(
+			"\tx := %s\n\ty := %s\n\tvx.Assume(%s(x, y))\n\tvx.Assume(%s(x, y))\n\tvx.Assert(%s(x) == %s(y), \"Equal implies same hash\")\n",
+			nd(T, "x"), nd(T, "y"), eq, ref, hash, hash))
+		kf.KF = "F3"
+		out = append(out, kf)
+	} else {
+		out = append(out, h("VX_C04_direct_"+in.ID, "direct", fmt.Sprintf(
+			"\tx := %s\n\ty := %s\n\tvx.Assume(%s(x, y))\n\tvx.Assume(%s(x, y))\n\tvx.Assert(%s(x) == %s(y), \"Equal implies same hash\")\n",
+			nd(T, "x"), nd(T, "y"), eq, ref, hash, hash)))
+	}
 	// L1: premise coverage
 	if in.Tags["bytes"] && isComponentBytes(T) {
 		lax := g.RefEqLaxBytes(T)
@@ -256,7 +268,7 @@ func genC05(g *Gen, in Inst, tier string) []HarnessSrc {
 				"\tvx.Assert(%s(dst, src), \"copy equals source\")\n\tvx.Assert(%s(src, snap), \"source unchanged\")\n"+
 				"\tdsnap := %s(dst)\n\t%s(&src)\n\tvx.Assert(%s(dst, dsnap), \"writes through source invisible in copy\")\n"+
 				"\tssnap := %s(src)\n\t%s(&dst)\n\tvx.Assert(%s(src, ssnap), \"writes through copy invisible in source\")\n",
-			nd(T, "src"), nd(T, "dst"), clone, dc, ref, ref, clone, scr, ref, clone, scr, ref)))
+			ndo(T, "src", recMapOpt(in)), ndo(T, "dst", recMapOpt(in)), clone, dc, ref, ref, clone, scr, ref, clone, scr, ref)))
 	} else {
 		PT := Ptr(T)
 		out = append(out, h("VX_C05_deepcopy_"+in.ID, "deepcopy", fmt.Sprintf(
@@ -264,7 +276,7 @@ func genC05(g *Gen, in Inst, tier string) []HarnessSrc {
 				"\tvx.Assert(%s(*dst, *src), \"copy equals source\")\n\tvx.Assert(%s(*src, snap), \"source unchanged\")\n"+
 				"\tdsnap := %s(*dst)\n\t%s(src)\n\tvx.Assert(%s(*dst, dsnap), \"writes through source invisible in copy\")\n"+
 				"\tssnap := %s(*src)\n\t%s(dst)\n\tvx.Assert(%s(*src, ssnap), \"writes through copy invisible in source\")\n",
-			nd(T, "src"), nd(T, "dst"), clone, dc, ref, ref, clone, scr, ref, clone, scr, ref)))
+			ndo(T, "src", recMapOpt(in)), ndo(T, "dst", recMapOpt(in)), clone, dc, ref, ref, clone, scr, ref, clone, scr, ref)))
 		_ = PT
 	}
 	// clone
@@ -273,21 +285,74 @@ func genC05(g *Gen, in Inst, tier string) []HarnessSrc {
 			"\tvx.Assert(%s(dst, src), \"clone equals source\")\n\tvx.Assert(%s(src, snap), \"source unchanged\")\n"+
 			"\tdsnap := %s(dst)\n\t%s(&src)\n\tvx.Assert(%s(dst, dsnap), \"writes through source invisible in clone\")\n"+
 			"\tssnap := %s(src)\n\t%s(&dst)\n\tvx.Assert(%s(src, ssnap), \"writes through clone invisible in source\")\n",
-		nd(T, "src"), clone, cl, ref, ref, clone, scr, ref, clone, scr, ref)))
+		ndo(T, "src", recMapOpt(in)), clone, cl, ref, ref, clone, scr, ref, clone, scr, ref)))
 	// slice form (equal length) and map form (empty destination)
 	if T.K == "slice" {
 		out = append(out, h("VX_C05_slicecopy_"+in.ID, "slicecopy", fmt.Sprintf(
 			"\tsrc := %s\n\tdst := %s\n\tvx.Assume(len(dst) == len(src) && src != nil && dst != nil)\n\tsnap := %s(src)\n\t%sS(dst, src)\n"+
 				"\tvx.Assert(%s(dst, src), \"copy equals source\")\n\tvx.Assert(%s(src, snap), \"source unchanged\")\n"+
 				"\tdsnap := %s(dst)\n\t%s(&src)\n\tvx.Assert(%s(dst, dsnap), \"writes through source invisible in copy\")\n",
-			nd(T, "src"), nd(T, "dst"), clone, dc, ref, ref, clone, scr, ref)))
+			ndo(T, "src", recMapOpt(in)), ndo(T, "dst", recMapOpt(in)), clone, dc, ref, ref, clone, scr, ref)))
 	}
 	if T.K == "map" {
 		out = append(out, h("VX_C05_mapcopy_"+in.ID, "mapcopy", fmt.Sprintf(
 			"\tsrc := %s\n\tvx.Assume(src != nil)\n\tdst := make(%s)\n\tsnap := %s(src)\n\t%sM(dst, src)\n"+
 				"\tvx.Assert(%s(dst, src), \"copy equals source\")\n\tvx.Assert(%s(src, snap), \"source unchanged\")\n"+
 				"\tdsnap := %s(dst)\n\t%s(&src)\n\tvx.Assert(%s(dst, dsnap), \"writes through source invisible in copy\")\n",
-			nd(T, "src"), T.Expr(), clone, dc, ref, ref, clone, scr, ref)))
+			ndo(T, "src", recMapOpt(in)), T.Expr(), clone, dc, ref, ref, clone, scr, ref)))
 	}
 	return out
+}
+
+// RefEqBits: structural equality that compares float leaves by bit pattern (distinguishes +0 and -0).
+func (g *Gen) RefEqBits(t *Ty) string {
+	t = g.resolve(t)
+	name := "refEqBits_" + t.Mangle()
+	if _, ok := g.funcs[name]; ok {
+		return name
+	}
+	g.funcs[name] = ""
+	g.forder = append(g.forder, name)
+	u := t
+	if t.K == "named" {
+		u = g.resolve(t.Under)
+	}
+	var body string
+	switch u.K {
+	case "basic":
+		switch u.Name {
+		case "float64":
+			body = "\treturn math.Float64bits(float64(a)) == math.Float64bits(float64(b))\n"
+		case "float32":
+			body = "\treturn math.Float32bits(float32(a)) == math.Float32bits(float32(b))\n"
+		case "complex128":
+			body = "\treturn math.Float64bits(real(a)) == math.Float64bits(real(b)) && math.Float64bits(imag(a)) == math.Float64bits(imag(b))\n"
+		case "complex64":
+			body = "\treturn math.Float32bits(real(a)) == math.Float32bits(real(b)) && math.Float32bits(imag(a)) == math.Float32bits(imag(b))\n"
+		default:
+			body = "\treturn a == b\n"
+		}
+	case "ptr":
+		body = fmt.Sprintf("\tif a == nil || b == nil {\n\t\treturn a == nil && b == nil\n\t}\n\treturn %s(*a, *b)\n", g.RefEqBits(u.Elem))
+	case "slice":
+		body = fmt.Sprintf("\tif a == nil || b == nil {\n\t\treturn a == nil && b == nil\n\t}\n\tif len(a) != len(b) {\n\t\treturn false\n\t}\n\tfor i := 0; i < len(a); i++ {\n\t\tif !%s(a[i], b[i]) {\n\t\t\treturn false\n\t\t}\n\t}\n\treturn true\n", g.RefEqBits(u.Elem))
+	case "array":
+		body = fmt.Sprintf("\tfor i := 0; i < len(a); i++ {\n\t\tif !%s(a[i], b[i]) {\n\t\t\treturn false\n\t\t}\n\t}\n\treturn true\n", g.RefEqBits(u.Elem))
+	case "map":
+		keyCheck := ""
+		if u.Key.contains(func(x *Ty) bool { return x.K == "basic" && (strings.HasPrefix(x.Name, "float") || strings.HasPrefix(x.Name, "complex")) }) {
+			keyCheck = fmt.Sprintf("\t\tfor k2 := range b {\n\t\t\tif k2 == k && !%s(k, k2) {\n\t\t\t\treturn false\n\t\t\t}\n\t\t}\n", g.RefEqBits(u.Key))
+		}
+		body = fmt.Sprintf("\tif a == nil || b == nil {\n\t\treturn a == nil && b == nil\n\t}\n\tif len(a) != len(b) {\n\t\treturn false\n\t}\n\tfor k, v := range a {\n\t\tw, ok := b[k]\n\t\tif !ok || !%s(v, w) {\n\t\t\treturn false\n\t\t}\n%s\t}\n\treturn true\n", g.RefEqBits(u.Elem), keyCheck)
+	case "struct":
+		var sb strings.Builder
+		for _, f := range u.Fields {
+			fmt.Fprintf(&sb, "\tif !%s(a.%s, b.%s) {\n\t\treturn false\n\t}\n", g.RefEqBits(f.T), f.Name, f.Name)
+		}
+		sb.WriteString("\treturn true\n")
+		body = sb.String()
+	}
+	g.needMath = true
+	g.funcs[name] = fmt.Sprintf("func %s(a, b %s) bool {\n%s}\n", name, t.Expr(), body)
+	return name
 }
